@@ -258,7 +258,12 @@ def analyze_once(scn, timeout_s=900, reduce=True, verbose=False, seed=0, raw_sta
                     # confirmed by replay; their absence is certified by the solver's progress query.
                     doomed = ind.doomed(accept=(lambda k_: excluded_state(prod, scn, ind, k_, exclude)) if exclude else None)
                     if doomed:
-                        k = min(doomed, key=lambda k_: len(ind.red.path_to(k_)))
+                        # prefer a trap that no value of the inputs still to be read can leave: the replay then does not
+                        # depend on inputs the schedule has not fixed yet
+                        acc = (lambda k_: excluded_state(prod, scn, ind, k_, exclude)) if exclude else None
+                        ok_some = ind.red.can_finish(acc)
+                        hard = [k_ for k_ in doomed if k_ not in ok_some]
+                        k = min(hard or doomed, key=lambda k_: len(ind.red.path_to(k_)))
                         out = {'result': 'bad', 'kind': 'deadlock', 'queries': out['queries'],
                                'state': {'pcs': k[0], 'vals': k[1], 'ins': tuple(0 if x is None else x for x in k[2])},
                                'R_states': len(ind.red.states), 'key': k, 'livelock': True}
